@@ -78,14 +78,23 @@ def run():
                      "a content change also changes mtime (ms) or length (the property's proviso)"],
         outside=["sled durability / interrupted runs", "inode reuse within the same millisecond and length"])
     ctx = oblig.Ctx()
+    add_obligations(rep, ctx)
+    return rep
+
+
+def add_obligations(rep, ctx):
+    """the cache obligations; also part of C01 and C03 (their statements quantify over 'with or without the hash cache')"""
     prog = ctx.lib
     eng = oblig.engine(prog, unroll=0, inline=INL, extra=PURE)
     fns = lambda: oblig.fnames(eng)
     HC = lambda n: prog.method("HashCache", n)
 
     def finish(o, scenario=None):
-        if o.verdict == "violated" and scenario:
-            replay(o, ctx, scenario)
+        if o.verdict == "violated":
+            if scenario:
+                replay(o, ctx, scenario)
+            if not o.stats.get("traces_validated"):
+                battery(o, ctx)
         rep.add(o)
 
     # ---- key
@@ -184,6 +193,45 @@ def run():
     finish(oblig.check_paths(e_open, ps, "open: the tree name is formatted from both the hash function and the transform", open_prop, fns(),
                              key="cache:tree-name", allow=("return", "panic", "diverge", "bound")), "tree-name")
 
+    # ---- new_cached: the cache is opened for this hasher's algorithm and its complete transform command
+    import optsum as _opt
+    e_nc = oblig.engine(prog, unroll=0, inline=oblig.module_inliner(prog, "hasher.rs", r"HashCache::"), extra=dict(_opt.SUMMARIES))
+    fnc = prog.method("FileHasher", "new_cached")
+    tval = Lazy("T", "transform::Transform")
+    alg = Lazy("alg", fnc.args[0][1])
+    i_cmd = prog.src.field_index("Transform", "command_str")
+    for label, targ in (("with a transform", EnumV("Option", "Some", 1, {0: tval})), ("without a transform", EnumV("Option", "None", 0, {}))):
+        ps = e_nc.run(fnc, args=[alg, targ, Lazy("log", fnc.args[2][1])])
+
+        def nc_prop(p, targ=targ):
+            od = called(p, r"HashCache::open(_default)?$")
+            if not (p.status == "return" and isinstance(p.result, EnumV) and p.result.variant == "Ok"):
+                return None
+            if len(od) != 1:
+                return z3.BoolVal(False)
+            a_tr, a_alg = od[0].args[-2], od[0].args[-1]
+            if a_alg is not alg:
+                return z3.BoolVal(False)
+            if targ.variant == "None":
+                ok = isinstance(a_tr, EnumV) and a_tr.variant == "None"
+            else:
+                ok = False
+                if isinstance(a_tr, EnumV) and a_tr.variant == "Some":
+                    v = a_tr.fields.get(0)
+                    # the &str handed over is a view (as_str / deref / as_ref) of the transform's `command_str` field
+                    src = [ev for ev in p.events if ev.ret is v and re.search(r"as_str$|[Dd]eref|as_ref$|borrow$", ev.callee)]
+                    for ev in src:
+                        a0 = ev.args[0] if ev.args else None
+                        fl = [x for x in getattr(a0, "path", ()) if x and x[0] == "field"]
+                        if fl and fl[-1][1] == i_cmd and "String" in str(fl[-1][2]):
+                            ok = True
+            r = p.result.fields[0]
+            same = isinstance(r, Agg) and any(v is alg for v in r.fields.values())
+            return z3.BoolVal(bool(ok and same))
+        finish(oblig.check_paths(e_nc, ps, "new_cached (%s): the cache tree is opened for the hasher's own algorithm and the complete transform command string" % label,
+                                 nc_prop, fns(), key="hasher:new_cached", allow=("return", "panic", "diverge", "bound")))
+    eng.encoded.update(e_nc.encoded)
+
     # ---- hashers: helpers of hasher.rs are inlined down to the leaves (HashCache::get/put/key, FileMetadata::new, open,
     # stream_hash, Transform::run), so the obligations do not depend on how the hashers are factored into functions
     import optsum
@@ -269,6 +317,27 @@ def groups_of(binary, args, env):
     r = subprocess.run([binary, "group", "-f", "json"] + args, stdout=subprocess.PIPE, stderr=subprocess.PIPE, env=env, timeout=120)
     js = json.loads(r.stdout.decode(errors="replace"))
     return sorted(sorted(os.path.basename(f) for f in g["files"]) for g in js.get("groups", []))
+
+
+def battery(o, ctx):
+    """fallback confirmation: the cached-vs-uncached history battery (replay/batteries.py) on the real binary"""
+    import sys
+    sys.path.insert(0, os.path.join(os.path.dirname(os.path.dirname(os.path.abspath(__file__))), "replay"))
+    import batteries
+    try:
+        binary = native.build_binary(ctx.src)
+    except Inconclusive as e:
+        o.verdict, o.detail = "inconclusive", "replay build failed: %s" % e
+        return
+    devs = batteries.c12_battery(binary)
+    o.cex = dict(o.cex or {}, native_battery=devs[:5])
+    if devs:
+        o.verdict = "violated"
+        o.stats["traces_validated"] = 1
+        o.detail = (o.detail.split("counterexample did not reproduce")[0] + " replayed natively (history battery): %s" % json.dumps(devs[0])[:400]).strip()
+    else:
+        o.verdict = "inconclusive"
+        o.detail += "; the cached-vs-uncached history battery found no deviation either"
 
 
 def replay(o, ctx, scenario):
